@@ -935,13 +935,15 @@ fn parents(
 ) -> Vec<anyhow::Result<SignedEntry>> {
     let mut res = Vec::new();
 
-    while !key.is_empty() {
-        let entry = get_exact(table, namespace, author, &key, false);
-        key.pop();
-        match entry {
+    loop {
+        // deletion markers and the entry at the empty key are prefixes as well
+        match get_exact(table, namespace, author, &key, true) {
             Err(err) => res.push(Err(err)),
             Ok(Some(entry)) => res.push(Ok(entry)),
-            Ok(None) => continue,
+            Ok(None) => {}
+        }
+        if key.pop().is_none() {
+            break;
         }
     }
     res.reverse();
